@@ -44,7 +44,8 @@ def make_inputs(contract, cfgname, D, P, shape, rng, cell0=None, dtype=float):
         if root in cfg and cfg[root] is None: continue
         tgt = alias.get(a, a)
         if tgt != a and tgt in arrs: arrs[a] = arrs[tgt]; continue
-        x = numpy.zeros((D, P) + tuple(shape), dtype=dtype)
+        cs = contract.cell_shapes(cfgname).get(a)
+        x = numpy.zeros((D, P) + (tuple(shape) if cs is None else tuple(cs)), dtype=dtype)
         it = numpy.nditer(x[0], flags=['multi_index'])
         for _ in it:
             pos = it.multi_index
@@ -111,7 +112,8 @@ def check_kernel(contract, cfgname, D, P, shape, rng, cell0=None, scal=None, dty
     post, pre = call(contract, cfgname, arrs, scal)
     n = 0
     first = next(iter(pre.values()))
-    for pos in numpy.ndindex(*first.shape[1:]):
+    matrix_cells = bool(contract.cell_shapes(cfgname))
+    for pos in (numpy.ndindex(*first.shape[1:]) if not matrix_cells else numpy.ndindex(P)):
         inp = {k: [v[(d,) + pos] for d in range(D)] for k, v in pre.items()}
         try: exp = contract.oracle(inp, scal, cfgname)
         except (ZeroDivisionError, ValueError, OverflowError): continue
@@ -122,6 +124,15 @@ def check_kernel(contract, cfgname, D, P, shape, rng, cell0=None, scal=None, dty
                 got_arr = post['ret'][int(name[4:])]
             else: got_arr = post[name]
             got = [got_arr[(d,) + pos] for d in range(D)]
+            if matrix_cells:
+                scale = max([float(numpy.abs(w).max()) if numpy.size(w) else 0.0 for w in want] + [1.0]); bad = None
+                for d in range(D):
+                    if not numpy.all(numpy.isfinite(want[d])): break
+                    if numpy.shape(got[d]) != numpy.shape(want[d]) or not numpy.allclose(got[d], want[d], rtol=1e-8, atol=1e-8 * scale): bad = d; break
+                if bad is not None:
+                    return n, {'function': contract.qual, 'cfg': cfgname, 'D': D, 'P': P, 'position': list(pos), 'array': name, 'order': bad,
+                               'observed': numpy.asarray(got[bad]).tolist(), 'expected': numpy.asarray(want[bad]).tolist(), 'inputs_full': {k: v.tolist() for k, v in pre.items()}, 'scalars': {k: numpy.asarray(v).tolist() for k, v in scal.items() if not callable(v)}}
+                n += 1; continue
             scale = max([abs(complex(w)) for w in want] + [1.0])
             for d in range(D):
                 ok = close(got[d], want[d], scale)
